@@ -315,7 +315,7 @@ func genRawRequest(t *rapid.T, lb string) e2eReq {
 	method := rapid.SampledFrom([]string{"GET", "GET", "HEAD", "POST", "PUT", "OPTIONS", "PROPFIND", "DELETE", "G\x00T", "get"}).Draw(t, lb+"m")
 	path := rapid.SampledFrom(hostilePaths).Draw(t, lb+"p")
 	var sb bytes.Buffer
-	host := rapid.SampledFrom([]string{"localhost", "localhost", "a.b.c.d.localhost", "LOCALHOST:80", "localhost:x", "[::1]", ""}).Draw(t, lb+"h")
+	host := rapid.SampledFrom([]string{"localhost", "localhost", "a.b.c.d.localhost", "LOCALHOST:80", "localhost:x", "[::1]", "", "[::1]:80", "[::1", "[", "[localhost", "localhost]", "][", "[]", "[]:80", "[::1]x", "lo[calhost", ":80", "localhost:", "::1", "[::1]:"}).Draw(t, lb+"h")
 	fmt.Fprintf(&sb, "%s %s HTTP/1.1\r\nHost: %s\r\nConnection: close\r\nX-Fcgi-Id: @ID@\r\n", method, path, host)
 	n := rapid.IntRange(0, 6).Draw(t, lb+"nh")
 	for i := 0; i < n; i++ {
@@ -346,6 +346,11 @@ func genRawRequest(t *rapid.T, lb string) e2eReq {
 func genFcgiReply(t *rapid.T, lb string) []byte {
 	heads := []string{"Content-Type: text/html\r\n\r\n", "Status: 200 OK\r\nContent-Type: text/html\r\n\r\n", "Status: abc\r\n\r\n", "Status: 99999999999999999999 x\r\n\r\n", "Status:\r\n\r\n", "Status: 0\r\n\r\n", "Status: -1\r\n\r\n", "Status: 1000 big\r\n\r\n", "\r\n", "", "no colon line\r\n\r\n", "Content-Length: -5\r\n\r\n", "Content-Length: 10\r\n\r\nab", "Transfer-Encoding: chunked\r\n\r\nzz\r\nxx", "Transfer-Encoding: chunked\r\n\r\n5\r\nab", "Link: >x<\r\n\r\n", "Link: <\r\nX: y\r\n\r\n", "Location: {uri}\r\nStatus: 302\r\n\r\n", "X-Accel-Redirect: /internal/x\r\n\r\n", ": empty name\r\n\r\n", "A: b\r\n continuation\r\n\r\n", strings.Repeat("X-H: v\r\n", 2000) + "\r\n", "Content-Type: text/html\n\nbody with bare LF"}
 	head := rapid.SampledFrom(heads).Draw(t, lb+"head")
+	if rapid.IntRange(0, 3).Draw(t, lb+"genstatus") == 0 {
+		// a status code text drawn from signs, leading zeros and digit counts
+		code := rapid.SampledFrom([]string{"", "+", "-", "0", "00", " "}).Draw(t, lb+"sgn") + rapid.SampledFrom([]string{"0", "7", "42", "99", "100", "200", "404", "999", "1000", "65536", "2e2", "0x1F", "200.0"}).Draw(t, lb+"dig")
+		head = "Status: " + code + rapid.SampledFrom([]string{"", " OK", " "}).Draw(t, lb+"txt") + "\r\nContent-Type: text/plain\r\n\r\n"
+	}
 	body := rapid.SampledFrom([]string{"", "hello", strings.Repeat("x", 70000)}).Draw(t, lb+"body")
 	stream := []byte(head + body)
 	var out []byte
